@@ -603,7 +603,19 @@ func genWindowScript(rt *rapid.T) *Script {
 		b.H = 1
 	}
 	arm := []string{"subdoc.betweenReadWrite", "callback"}
-	sc.Steps = []SStep{{Do: "start", Lane: "A", Op: &a, Arm: arm}, {Do: "start", Lane: "B", Op: &b}, {Do: "resume", Lane: "A"}}
+	sc.Steps = []SStep{{Do: "start", Lane: "A", Op: &a, Arm: arm}}
+	// a cas-0 sub-document write may lose its race several times in a row: each time it re-reads, it
+	// is held again and another write slips in (an unconditional write must win in the end, however
+	// often that happens)
+	rounds := 1
+	if (kindA == "WriteSubDoc" || kindA == "SubdocInsert") && a.Cas.Kind == "zero" {
+		rounds = pick(rt, []int{1, 1, 1, 1, 2, 3, 5, 11, 12}, "win.rounds")
+	}
+	for r := 1; r < rounds; r++ {
+		mid := Op{K: "WriteSubDoc", Key: "a", Path: fmt.Sprintf("r%d", r), Body: []byte(`"B"`), H: b.H}
+		sc.Steps = append(sc.Steps, SStep{Do: "start", Lane: fmt.Sprintf("B%d", r), Op: &mid}, SStep{Do: "resume", Lane: "A", Arm: arm})
+	}
+	sc.Steps = append(sc.Steps, SStep{Do: "start", Lane: "B", Op: &b}, SStep{Do: "resume", Lane: "A"})
 	return sc
 }
 
@@ -680,10 +692,10 @@ func runWindowScript(prop string) func(sc *Script) ([]Deviation, *scriptRun, err
 			} else {
 				status = sr.step(st)
 			}
-			if st.Lane == "B" {
+			if strings.HasPrefix(st.Lane, "B") && st.Do == "start" {
 				if status == "running" {
-					status = sr.s.Await("B")
-					sr.log = append(sr.log, "await B -> "+status)
+					status = sr.s.Await(st.Lane)
+					sr.log = append(sr.log, "await "+st.Lane+" -> "+status)
 				}
 				afterB, _ = Observe(w.Coll(0, 0), "a", []string{"_sync", "_vv"})
 			}
@@ -907,7 +919,7 @@ func genCheckpointScript(rt *rapid.T) *Script {
 		sc.Steps = append(sc.Steps, st)
 	}
 	for i := 0; i < n; i++ {
-		choices := []string{"write", "write", "gateCb"}
+		choices := []string{"write", "write", "gateCb", "plainStop"}
 		if !feedOn {
 			choices = append(choices, "startFeed", "startFeed", "midDeliveryStop")
 			if multi {
@@ -927,6 +939,10 @@ func genCheckpointScript(rt *rapid.T) *Script {
 		case "resumeW":
 			sc.Steps = append(sc.Steps, SStep{Do: "resume", Lane: parkedW})
 			parkedW = ""
+		case "plainStop":
+			// another, ordinary feed on the same collection comes and goes (what it leaves behind
+			// in the feed registry must not disturb the checkpointed feed)
+			sc.Steps = append(sc.Steps, SStep{Do: "plainStop", Lane: fmt.Sprint(pick(rt, fcolls, "cp.plaincoll"))})
 		case "startFeed":
 			arm := []string{}
 			if chance(rt, 30, "cp.parkfeed") {
@@ -1147,6 +1163,7 @@ func runCheckpointScript(sc *Script) (devs []Deviation, sr *scriptRun, err error
 		}
 	}
 	var pendingStops []*cpRun
+	plainN := 0
 	gated := map[int]bool{}
 	targets := func(lane string) []int {
 		if lane == "" {
@@ -1229,6 +1246,22 @@ func runCheckpointScript(sc *Script) (devs []Deviation, sr *scriptRun, err error
 				}
 			}
 			sr.log = append(sr.log, "openCb "+st.Lane)
+		case "plainStop":
+			// runs in a lane of its own: StartDCPFeed needs the lock a lane parked between commit and
+			// post (or between backfill and registration) holds, and then simply finishes later
+			ci := targets(st.Lane)[0]
+			plainN++
+			lane := fmt.Sprintf("P%d", plainN)
+			status := sr.s.Start(lane, nil, func() {
+				pc, perr := w.StartLiveFeed(FeedCfg{H: 0, C: ci})
+				if perr == nil && !pc.StopAndWait() {
+					sr.mu.Lock()
+					sr.log = append(sr.log, "plain feed did not end")
+					sr.mu.Unlock()
+				}
+			})
+			sr.order = append(sr.order, lane)
+			sr.log = append(sr.log, fmt.Sprintf("plainStop %s -> %s", st.Lane, status))
 		case "pause":
 			time.Sleep(60 * time.Millisecond) // lets a released part of the feed end before the next one is released
 		default:
